@@ -34,7 +34,12 @@ SmallR3(j, d, pt, r0, e, s) == << Forge4("small-r", pt, e, r0, s, VerifyRS(pt, e
 SmallR2(j, d, pt, r0, k) == SmallR3(j, d, pt, r0, BSubMod(r0, MulN(k, G)[1], NN), SignS(d, k, r0))
 SmallR(j) == SmallR2(j, Dof(j), MulN(Dof(j), G), Small(j, 8), Kof(j))
 \* [s]G + [t]P = O:  t = -s d^-1, r = t - s, e = r  -- only the holder of d can build it; there is no x1, so it is not a valid signature
-InfCase3(j, pt, r, s) == << Forge4("sum-is-infinity", pt, r, r, s, VerifyRS(pt, r, r, s)) >>
+\* ... with the digests for which a verifier that MISSES the infinity would accept: e = r (x1 read as 0), e = r - x([2s]G) (P + (-P) computed as a
+\* doubling), e = r - x([s]G), e = r - x([t]P) (one operand returned)
+InfCase3(j, pt, r, s) == << Forge4("sum-is-infinity", pt, r, r, s, VerifyRS(pt, r, r, s)),
+                            Forge4("sum-is-infinity", pt, BSubMod(r, BMod(MulN(BAddMod(s, s, NN), G)[1], NN), NN), r, s, FALSE),
+                            Forge4("sum-is-infinity", pt, BSubMod(r, BMod(MulN(s, G)[1], NN), NN), r, s, FALSE),
+                            Forge4("sum-is-infinity", pt, BSubMod(r, BMod(MulN(BAddMod(r, s, NN), pt)[1], NN), NN), r, s, FALSE) >>
 InfCase2(j, d, pt, s, t) == InfCase3(j, pt, BSubMod(t, s, NN), s)
 InfCase(j) == InfCase2(j, Dof(j), MulN(Dof(j), G), Small(j, 12), BSubMod(BZero, BMulMod(Small(j, 12), InvN(Dof(j)), NN), NN))
 \* digests that force each retry branch of the signer for the nonce k:  r = 0;  r + k = n;  s = 0 (k = r d)
